@@ -14,7 +14,9 @@ class Monitor(object):
         """Called on the world reached by the parent history, just before the last event is applied."""
         return None
 
-    def key(self):
+    def key(self, w):
+        """Whatever the monitor remembers about the past that is not already in the canonical world dump or the
+        request table; part of the state key (two histories merge only if the monitor cannot tell them apart)."""
         return ()
 
     def at_end(self, w):
